@@ -16,7 +16,8 @@ PROPS = ['Props/C29']
 DISABLED = True
 RULE = ('documents from the shared history generator (summary tables, lookups, formulas calling lookupOrAddDerived, '
         'documents left dirty by a failed bundle); between bundles a battery of every exported read-only call '
-        '(fetch_table with and without formulas/query, fetch_table_schema, fetch_meta_tables, get_formula_error, '
+        '(fetch_table with and without formulas/query, fetch_table_schema, fetch_meta_tables, get_table_stats, count_rows, '
+        'convert_formula_completion, get_formula_error, '
         'evaluate_formula, get_formula_prompt, autocomplete, find_col_from_values) is run on one engine and not on an '
         'identically driven control engine; per call: all tables, engine.schema, the out_actions lengths and every '
         'public cell written during the call must be as before; per bundle: both engines must produce equal '
@@ -92,6 +93,9 @@ def battery(e, rng, limit_rows=2):
     calls.append(('fetch_table', t, False, None))
   calls.append(('fetch_table_schema',))
   calls.append(('fetch_meta_tables',))
+  calls.append(('get_table_stats',))
+  calls.append(('count_rows',))
+  calls.append(('convert_formula_completion', 'def f(rec):\n    return rec.A + 1\n'))
   for t in G.user_tables(e):
     tb = e.tables[t]
     rows = list(tb.row_ids)
@@ -129,6 +133,12 @@ def perform(e, call):
     return e.fetch_table_schema()
   if name == 'fetch_meta_tables':
     return e.fetch_meta_tables()
+  if name == 'get_table_stats':
+    return e.get_table_stats()
+  if name == 'count_rows':
+    return e.count_rows()
+  if name == 'convert_formula_completion':
+    return formula_prompt.convert_completion(call[1])
   if name == 'get_formula_error':
     return e.get_formula_error(call[1], call[2], call[3])
   if name == 'evaluate_formula':
@@ -289,6 +299,18 @@ def run_history(ctx, seed_rng, stats, on_case):
     if seed_rng.random() < 0.3:
       bundle = bundle + [gen.gen('invalid', histgen.Meta(ld1.e)) or ['RemoveRecord', 'NoSuchTable', 1]]
     o = both(bundle)
+    if o[0] != o[1] and G.snapshot(ld1.e) == G.snapshot(ld2.e):
+      # same tables, different ActionGroup: is the control itself reproducible?  (iteration over sets of objects
+      # hashed by address makes some action orders differ between two engines of one process: C30, not C29)
+      ld3 = c04.LoggedDoc(ld2.log[:-1])
+      try:
+        o3 = ('ok', canon_out(ld3.apply(bundle)))
+      except Exception as ex:
+        o3 = ('raised', type(ex).__name__ + ':' + str(ex)[:80])
+      if o3 != o[1]:
+        ctx.bump('control-engine-output-not-reproducible (ignored)')
+        ld1 = c04.LoggedDoc(ld2.log)
+        continue
     if o[0] != o[1] or G.snapshot(ld1.e) != G.snapshot(ld2.e) or G.engine_schema(ld1.e) != G.engine_schema(ld2.e):
       what = ('after the read-only calls the bundle %s behaves differently from the control engine: %s vs %s; %s' % (
         json.dumps(bundle, default=repr)[:200], o[0][1][:160] if o[0][0] == 'raised' else o[0][0],
@@ -297,9 +319,15 @@ def run_history(ctx, seed_rng, stats, on_case):
       kind = 'diverges-from-control'
       if o[0][0] == 'raised' and 'AttributeRecorder' in o[0][1]:
         kind = 'evaluate-formula-poisons-auto-remove-set'
-      return found + [{'kind': kind, 'what': what,
-                       'replay': {'log': copy.deepcopy(ld2.log[:-1]), 'calls': [list(c) for c in done],
-                                  'then': copy.deepcopy(bundle)}}]
+      v = {'kind': kind, 'what': what,
+           'replay': {'log': copy.deepcopy(ld2.log[:-1]), 'calls': [list(c) for c in done],
+                      'then': copy.deepcopy(bundle)}}
+      if replay_kind(v['replay']) is None:
+        # not reproducible on freshly built engines with the same calls: not caused by the calls
+        ctx.bump('divergence-not-reproducible-from-its-replay (ignored)')
+        ld1 = c04.LoggedDoc(ld2.log)
+        continue
+      return found + [v]
   # end of history: Calculate must emit the same on both (nothing on a clean document), then an ordinary bundle
   dirty = bool(ld2.e.recompute_map)
   o = both([['Calculate']])
@@ -322,14 +350,14 @@ def search(ctx):
   stats = collections.Counter()
   seen = collections.Counter()
   import random
-  for h in range(ctx.n(4, 60)):
+  for h in range(ctx.n(3, 60)):
     rng = random.Random(ctx.rng.getrandbits(48))
     vs = run_history(ctx, rng, stats, None)
     stats['histories'] += 1
     for v in vs:
       seen[v['kind']] += 1
-      if seen[v['kind']] <= 3:
-        ctx.violation(v['kind'], v['what'], shrink(v)['replay'])
+      if seen[v['kind']] <= 2:
+        ctx.violation(v['kind'], v['what'], (shrink(v) if seen[v['kind']] == 1 else v)['replay'])
   ctx.extra['stats'] = dict(stats)
   ctx.extra['violations_by_kind'] = dict(seen)
   ctx.log('lockstep: %s %s' % (dict(stats), dict(seen)))
@@ -372,12 +400,12 @@ def shrink(v):
     return r is not None and r[0] == v['kind']
   try:
     if len(w['log']) > 2:
-      w['log'] = histgen.shrink_list(w['log'], fails, max_steps=40)
+      w['log'] = histgen.shrink_list(w['log'], fails, max_steps=12)
     if len(w.get('calls', [])) > 1:
       def fails_calls(calls):
         r = replay_kind(dict(w, calls=calls))
         return r is not None and r[0] == v['kind']
-      w['calls'] = histgen.shrink_list(w['calls'], fails_calls, max_steps=40)
+      w['calls'] = histgen.shrink_list(w['calls'], fails_calls, max_steps=12)
   except Exception:
     pass
   return v
